@@ -2,11 +2,11 @@ SPECIFICATION Spec
 CONSTANTS
   Names = {"a", "b"}
   Data = {"y"}
-  MaxDepth = 2
-  MaxOps = 2
-  MaxCommits = 2
-  WithFault = TRUE
-  Spine = FALSE
+  MaxDepth = 3
+  MaxOps = 4
+  MaxCommits = 1
+  WithFault = FALSE
+  Spine = TRUE
   Emit = TRUE
 INVARIANTS ViewEqIdealOL CommitExactRR FaultReportedRR RemoteUntouched CommitExact FaultReported CleanCommitNeverFails ViewEqIdeal
 VIEW ViewHist
